@@ -57,6 +57,7 @@ def main():
     ap.add_argument("--jobs", type=int, default=3)
     ap.add_argument("--tier", default="quick")
     ap.add_argument("--out")
+    ap.add_argument("--write", action="store_true", help="with --kept: record the outcome in each meta.json")
     a = ap.parse_args()
     anc = anchors()
     jobs = []
@@ -90,6 +91,15 @@ def main():
                     for l in ch[p]["lines"][:6]:
                         print("       " + l[:260])
             sys.stdout.flush()
+            if a.kept and a.write:
+                mp = os.path.join(os.path.dirname(r["id"]), "meta.json")
+                m = json.load(open(mp))
+                head = subprocess.run(["git", "-C", "/repo", "rev-parse", "--short", "HEAD"], stdout=subprocess.PIPE, text=True).stdout.strip()
+                m["evaluated"] = {"repo_head": head, "applies": bool(r.get("applied")), "repo_tests_pass_with_change": r.get("repo_tests_pass_with_change"),
+                                  "demo_exit_without_change": r.get("demo_exit_without_change"), "demo_exit_with_change": r.get("demo_exit_with_change"),
+                                  "checks": dict((p, {"tier": a.tier, "exit": c["exit"], "first_lines": [l.strip() for l in c["lines"] if "violated clause" in l or "INCONCLUSIVE" in l][:3]})
+                                                 for p, c in r.get("check", {}).items())}
+                json.dump(m, open(mp, "w"), indent=1)
     if a.out:
         json.dump(res, open(a.out, "w"), indent=1)
 
